@@ -87,6 +87,32 @@ func Syscall(sec int64, seq int, ses, pid, success string, args []string, npath 
 		Args: args, Kind: "SYSCALL", Recs: recs}
 }
 
+// Led returns a compound event whose FIRST record is not the SYSCALL record: the kernel logs an SELinux denial
+// (AVC) or an audit-configuration change (CONFIG_CHANGE) before the SYSCALL record of the system call that caused
+// it, and it is that leading record which classifies the event (action / how / object).
+func Led(lead string, sec int64, seq int, ses, pid, success string) Group {
+	exit := "0"
+	if success != "yes" {
+		exit = "-13"
+	}
+	var recs []Rec
+	sysno := "2"
+	switch lead {
+	case "AVC":
+		recs = append(recs, Rec{Type: "AVC", Line: hdr("AVC", sec, seq) + fmt.Sprintf(
+			`avc:  denied  { read } for  pid=%s comm="cat" name="shadow" dev="dm-0" ino=1234 scontext=unconfined_u:unconfined_r:unconfined_t:s0 tcontext=system_u:object_r:shadow_t:s0 tclass=file permissive=0`, pid)})
+	case "CONFIG_CHANGE":
+		sysno = "44"
+		recs = append(recs, Rec{Type: "CONFIG_CHANGE", Line: hdr("CONFIG_CHANGE", sec, seq) + fmt.Sprintf(
+			`auid=9999 ses=%s subj=unconfined op=add_rule key="watch-shadow" list=4 res=1`, ses)})
+	}
+	recs = append(recs, Rec{Type: "SYSCALL", Line: hdr("SYSCALL", sec, seq) + fmt.Sprintf(
+		"arch=c000003e syscall=%s success=%s exit=%s a0=55d0a0 a1=55d0b0 a2=55d0c0 a3=8 items=0 ppid=100 pid=%s auid=9999 uid=9999 gid=9999 euid=9999 suid=9999 fsuid=9999 egid=9999 sgid=9999 fsgid=9999 tty=pts0 ses=%s comm=\"cat\" exe=\"/usr/bin/cat\" subj=unconfined key=(null)",
+		sysno, success, exit, pid, ses)})
+	recs = append(recs, Rec{Type: "PROCTITLE", Line: hdr("PROCTITLE", sec, seq) + "proctitle=636174002F6574632F736861646F77"})
+	return Group{Name: lead + "+SYSCALL", Seq: seq, Sec: sec, Session: ses, PID: pid, Result: success, Success: success == "yes", Kind: lead, Recs: recs}
+}
+
 var SimpleTypes = []string{"LOGIN", "USER_START", "USER_END", "CRED_ACQ", "CRED_DISP", "USER_ACCT", "USER_AUTH", "USER_CMD", "USER_LOGIN", "CRED_REFR"}
 
 // Groups enumerates the full product of the generator's parameters.
@@ -106,6 +132,11 @@ func Groups(thorough bool) []Group {
 			}
 			for _, res := range ress {
 				out = append(out, Simple(typ, 1700000000+int64(seq%50), next(), ses, "4242", res))
+			}
+		}
+		for _, lead := range []string{"AVC", "CONFIG_CHANGE"} {
+			for _, succ := range []string{"yes", "no"} {
+				out = append(out, Led(lead, 1700000000+int64(seq%50), next(), ses, "4243", succ))
 			}
 		}
 		for _, succ := range []string{"yes", "no"} {
